@@ -1008,7 +1008,7 @@ func (eng *Engine) VerifyFunc(fn *ssa.Function, fc *FuncContract) (em *Emitter, 
 			if lab == "" {
 				lab = fmt.Sprintf("ens%d", i+1)
 			}
-			parts := splitConj(cl.Expr)
+			parts := eng.splitConjDeep(cl.Expr, fn.Pkg.Pkg.Path(), 0)
 			for pi, pe := range parts {
 				l := fmt.Sprintf("%s@ret%d", lab, ri+1)
 				if len(parts) > 1 {
